@@ -2,6 +2,8 @@ import Cx.Driver
 import Cx.DriverCompile
 import Cx.DriverLit
 import Cx.DriverPike
+import Cx.DriverFast
+import Cx.DriverCost
 /-! cxdrv — reads requests from stdin (one per line), writes one answer per line. -/
 
 def tokens (line : String) : List String := (line.trimAscii.toString.splitOn " ").filter (· ≠ "")
@@ -17,7 +19,13 @@ def answer (line : String) : String :=
     | none =>
       match Cx.DriverPike.handle? toks with
       | some r => r
-      | none => Cx.Driver.handle line
+      | none =>
+        match Cx.DriverFast.handle? toks with
+        | some r => r
+        | none =>
+          match Cx.DriverCost.handle? toks with
+          | some r => r
+          | none => Cx.Driver.handle line
 
 partial def loop (h : IO.FS.Stream) (out : IO.FS.Stream) : IO Unit := do
   let line ← h.getLine
